@@ -61,10 +61,21 @@ def basicAdd (r : Reg) (size : Nat) : Reg × Res Nat :=
     ({ r with dyn := r.dyn ++ [sz] }, .ok (TypeTab.dynamicBase + r.dyn.length))
   else (r, .err .MissingBuffer)
 
+/-- the `pos > limit` tests of a chunk walk over a table with `len` entries in chunks of `chunk`: the test inside
+    the loop sees `base + chunk * k` for the full chunks it steps over, the test after the loop sees the new id -/
+def rangeRefused (base chunk len : Nat) (loopMax finalMax : Option Nat) : Bool :=
+  (match loopMax with
+    | some m => decide (1 ≤ len / chunk ∧ base + chunk * (len / chunk) > m)
+    | none => false) ||
+  (match finalMax with
+    | some m => decide (base + len > m)
+    | none => false)
+
 /-- `mpt_type_add(traits)` -/
 def genericAdd (r : Reg) (t : Desc) : Reg × Res Nat :=
   if t.size = 0 then (r, .err .BadArgument)
-  else if TypeTab.genericBase + r.generics.length > TypeTab.genericMax then (r, .err .BadType)
+  else if rangeRefused TypeTab.genericBase TypeTab.genericChunk r.generics.length TypeTab.genericLoopMax TypeTab.genericFinalMax then
+    (r, .err .BadType)
   else ({ r with generics := r.generics ++ [t] }, .ok (TypeTab.genericBase + r.generics.length))
 
 def isSpaceC (c : Nat) : Bool := c = 32 || (9 ≤ c && c ≤ 13)
@@ -83,33 +94,52 @@ def allNamed (r : Reg) : List Named := r.metas ++ r.ifaces.filterMap id
 /-- first entry whose name is `key` -/
 def lookupKey (r : Reg) (key : Name) : Option Named := (allNamed r).find? (·.name = some key)
 
+/-- the match test of the length-limited branch: `[len == strlen(elem->name) &&] !strncmp(name, elem->name, len)` -/
+def matchLen (exact : Bool) (key : Name) (n : Option Name) : Bool :=
+  match n with
+  | some e => (if exact then e.length == key.length else true) && decide (key.length ≤ e.length) && e.take key.length == key
+  | none => false
+
+/-- first entry that matches the first `key.length` characters -/
+def lookupLen (r : Reg) (key : Name) : Option Named :=
+  match r.metas.find? (fun e => matchLen TypeTab.lenExactMeta key e.name) with
+  | some e => some e
+  | none => (r.ifaces.filterMap id).find? (fun e => matchLen TypeTab.lenExactIface key e.name)
+
 /-- `mpt_named_traits(name, len)`: metatypes first, then interfaces -/
 def namedTraits (r : Reg) (name : Name) (len : Int) : Option Named :=
   if name = [] ∨ len = 0 then none
   else if len ≥ 0 then
-    -- `len == strlen(elem->name) && !strncmp(name, elem->name, len)`
-    if name.length < len.toNat then none else lookupKey r (name.take len.toNat)
+    if name.length < len.toNat then none else lookupLen r (name.take len.toNat)
   else lookupKey r (resolveShort name)
 
-/-- the name tests of the add functions: too short, or `mpt_named_traits(name, -1)` finds something
-    (an entry of either table, directly or through a short name) -/
-def nameRefused (minLen : Nat) (r : Reg) (name : Option Name) : Bool :=
+/-- the cross-table duplicate test `mpt_named_traits(name, len)` of the add functions, by its length argument -/
+def dupFound (mode : String) (r : Reg) (n : Name) : Bool :=
+  if mode = "full" then (namedTraits r n (-1)).isSome
+  else if mode = "nlen" then (namedTraits r n (n.length + 1 : Nat)).isSome
+  else false
+
+/-- the name tests of the add functions: too short, already in the own table, or found by the cross-table test -/
+def nameRefused (minLen : Nat) (mode : String) (own : Name → Bool) (r : Reg) (name : Option Name) : Bool :=
   match name with
-  | some n => n.length < minLen || (namedTraits r n (-1)).isSome
+  | some n => n.length < minLen || own n || dupFound mode r n
   | none => false
+
+def ownIface (r : Reg) (n : Name) : Bool := (r.ifaces.filterMap id).any (·.name = some n)
+def ownMeta (r : Reg) (n : Name) : Bool := r.metas.any (·.name = some n)
 
 /-- `mpt_type_interface_add(name)` -/
 def ifaceAdd (r : Reg) (name : Option Name) : Reg × Option Named :=
   if r.ifaces.length ≥ TypeTab.interfaceCap then (r, none)
-  else if nameRefused TypeTab.minNameLenIface r name then (r, none)
+  else if nameRefused TypeTab.minNameLenIface TypeTab.dupLookupIface (ownIface r) r name then (r, none)
   else
     let e : Named := { name := name, id := TypeTab.interfaceBase + r.ifaces.length, traits := pointerCopy "mpt_type_interface_add" }
     ({ r with ifaces := r.ifaces ++ [some e] }, some e)
 
 /-- `mpt_type_metatype_add(name)` -/
 def metaAdd (r : Reg) (name : Option Name) : Reg × Option Named :=
-  if nameRefused TypeTab.minNameLenMeta r name then (r, none)
-  else if TypeTab.metaBase + r.metas.length > TypeTab.metaMax then (r, none)
+  if nameRefused TypeTab.minNameLenMeta TypeTab.dupLookupMeta (ownMeta r) r name then (r, none)
+  else if rangeRefused TypeTab.metaBase TypeTab.metaChunk r.metas.length TypeTab.metaLoopMax TypeTab.metaFinalMax then (r, none)
   else
     let e : Named := { name := name, id := TypeTab.metaBase + r.metas.length, traits := pointerCopy "mpt_type_metatype_add" }
     ({ r with metas := r.metas ++ [e] }, some e)
